@@ -5,11 +5,17 @@ import Driver.Util
     hosts, watchdog).  Times are seconds since the start of the run.
 
     init <if|while> <f> <ct> <ut> <sopt> <selfcheck> <stopwdog>   start a new trace              -> ok
-    host <ok|refuse|hang> <d> <out> <err>     one target's script, in target order; a stream is `-` or
-                                              a comma list of <t|->:<dN|e|x>  (data N bytes, eof, error) -> ok
+    host <ok|refuse|hang> <d> <out> <err> [<life|-> <grace|->]
+                                              one target's script, in target order; a stream is `-` or
+                                              a comma list of <t|->:<dN|e|x>  (data N bytes, eof, error);
+                                              life = the command exits by itself that many seconds after
+                                              the connect (- = never), grace = it is gone that many seconds
+                                              after a SIGTERM (- = it ignores SIGTERM); default 0 0  -> ok
     go                                        all hosts given                                    -> ok
     st <tc> <R> <P> <X> <now>                 harness state before a step                        -> ok | reject ..
     ev D .. | ev W<i> <fan op> | ev W<i> wake | ev G scan <hit targets|-> | ev tick              -> ok | reject ..
+    ev W<i> destroyEnd <reaped|eintr>         rcmd_destroy returned with the command gone and reaped, resp.
+                                              its wait was interrupted (command given up un-reaped)     -> ok | reject ..
     obs <i> <outgot> <errgot> <outclosed> <errclosed> <res|?>   what the harness saw of target i -> ok | reject ..
     end <ok|deadlock|other>
     The transition function is `PdshVerif.Dsh.Timed.step`, the one the theorems are about. -/
@@ -72,7 +78,10 @@ def showRes : Res → String
   | .none => "none" | .done => "done" | .connFailed => "connFailed" | .connTimedOut => "connTimedOut"
   | .cmdTimedOut => "cmdTimedOut"
 def showHost (h : Host) : String :=
-  s!"{showPhase h.ph}/{showRes h.res}/s{h.start}/c{h.conn}/i{h.intr}/o{h.out.got}{if h.out.closed then "c" else ""}/e{h.err.got}{if h.err.closed then "c" else ""}"
+  let d := match h.death with
+    | none => "never"
+    | some d => toString d
+  s!"{showPhase h.ph}/{showRes h.res}/s{h.start}/c{h.conn}/i{h.intr}/o{h.out.got}{if h.out.closed then "c" else ""}/e{h.err.got}{if h.err.closed then "c" else ""}/death={d}{if h.reaped then "/reaped" else ""}"
 def showSt (s : St) : String :=
   s!"now={s.now} wake={s.wake} tc={s.fan.tc} i={s.fan.i} hosts={" ".intercalate (s.hs.map showHost)}"
 
@@ -116,6 +125,21 @@ def parseEv (s : St) : List String → Except String Label
     | some l => .ok (.fan l)
     | none => .error ("unknown event " ++ " ".intercalate ws)
 
+def parseOptNat (t : String) : Option (Option Nat) := if t = "-" then some none else t.toNat?.map some
+
+def addHost (a : Acc) (k d o e life grace : String) : Acc × String :=
+  match d.toNat?, parseItems o, parseItems e, parseOptNat life, parseOptNat grace with
+  | some d, some o, some e, some life, some grace =>
+    let c : Conn := if k = "ok" then .ok d else if k = "refuse" then .refuse d else .hang
+    ({ a with scripts := a.scripts ++ [{ conn := c, out := o, err := e, life := life, grace := grace }] }, "ok")
+  | _, _, _, _, _ => (a, "bad-line")
+
+/-- `W<i> destroyEnd <reaped|eintr>`: the worker and what the implementation saw -/
+def destroyWant : List String → Option (List String × Nat × Bool)
+  | [t, "destroyEnd", r] =>
+    if t.startsWith "W" then (t.drop 1).toNat?.map fun i => ([t, "destroyEnd"], i, r = "reaped") else none
+  | _ => none
+
 def stepLine (a : Acc) (line : String) : Acc × String :=
   match Driver.words line with
   | ["init", v, f, ct, ut, sopt, sc, sw] =>
@@ -124,12 +148,8 @@ def stepLine (a : Acc) (line : String) : Acc × String :=
       ({ st := none, dead := false, v := if v = "if" then .ifWait else .whileWait, f := f,
          cfg := { ct := ct, ut := ut, sopt := sopt = "1", selfCheck := sc = "1", stopWdog := sw = "1" }, scripts := [] }, "ok")
     | _, _, _ => (a, "bad-line")
-  | ["host", k, d, o, e] =>
-    match d.toNat?, parseItems o, parseItems e with
-    | some d, some o, some e =>
-      let c : Conn := if k = "ok" then .ok d else if k = "refuse" then .refuse d else .hang
-      ({ a with scripts := a.scripts ++ [{ conn := c, out := o, err := e }] }, "ok")
-    | _, _, _ => (a, "bad-line")
+  | ["host", k, d, o, e] => addHost a k d o e "0" "0"
+  | ["host", k, d, o, e, life, grace] => addHost a k d o e life grace
   | ["go"] => ({ a with st := some (init a.v a.f a.cfg a.scripts) }, "ok")
   | "st" :: rest =>
     if a.dead then (a, "skip") else
@@ -143,11 +163,20 @@ def stepLine (a : Acc) (line : String) : Acc × String :=
     if a.dead then (a, "skip") else
     match a.st with
     | some s =>
+      let (rest, want) := match destroyWant rest with
+        | some (r, i, b) => (r, some (i, b))
+        | none => (rest, none)
       match parseEv s rest with
       | .error why => ({ a with dead := true }, "reject " ++ why)
       | .ok l =>
         match step s l with
-        | some s' => ({ a with st := some s' }, "ok")
+        | some s' =>
+          match want with
+          | some (i, b) =>
+            if (s'.host i).reaped = b then ({ a with st := some s' }, "ok")
+            else ({ a with dead := true },
+                  s!"reject teardown of target {i}: implementation {if b then "reaped the command" else "gave the command up un-reaped (EINTR)"}, model {showHost (s'.host i)} ({showSt s})")
+          | none => ({ a with st := some s' }, "ok")
         | none => ({ a with dead := true }, s!"reject not enabled in the model: {" ".intercalate rest} ({showSt s})")
     | none => (a, "bad-line")
   | ["obs", i, og, eg, oc, ec, res] =>
